@@ -8,7 +8,7 @@
    the client abort (client_run returns Abort, i.e. an error before any application data).
    State of the files: they describe the tree WITH fixes/C12-tls12-unoffered-curve.diff applied
    (env_fixed); the pre-fix behaviour is kept as env_unfixed and refuted below. *)
-From UV Require Import Base.Common Model.Negotiate Proofs.NegotiateP.
+From UV Require Import Base.Common Model.Negotiate Model.NegotiateSess Proofs.NegotiateP Proofs.NegotiateSessP.
 
 (* TLS 1.3 cipher suite (ServerHello and HelloRetryRequest) *)
 Theorem C12_suite_tls13 : forall e v w fl st,
@@ -93,6 +93,20 @@ Theorem C12_curve_tls12_before_fix_refuted : ~ curve12_statement env_unfixed.
 Proof. exact curve12_unfixed_refuted. Qed.
 Print Assumptions C12_curve_tls12_before_fix_refuted.
 
+(* resumption (Model/NegotiateSess.v): the hello offers a TLS <= 1.2 session - from the cache or injected with
+   SetSessionState - and the server resumes it or not: the suite of a completed handshake was on the wire, and a
+   resumed session is resumed with its own version/suite only *)
+Theorem C12_suite_with_session : forall e v w sess ems fl st,
+  synced v w = true -> client_run_sess e v sess ems fl = Complete st -> In (cs_suite st) (w_suites w).
+Proof. exact wire_suite_sess. Qed.
+Print Assumptions C12_suite_with_session.
+
+Theorem C12_resumed_session_suite : forall e v vers h fl s ems st,
+  resumes v (Some s) h = true -> run12_sess e v vers h fl (Some s) ems = Complete st ->
+  s_vers s = vers /\ s_suite s = cs_suite st /\ In (cs_suite st) (cv_suites v) /\ s_ems s = ems.
+Proof. exact run12_sess_resumed. Qed.
+Print Assumptions C12_resumed_session_suite.
+
 (* ---- every hypothesis is satisfiable by concrete non-trivial inputs ---- *)
 Example C12_ex_complete13 :
   synced f12_view f12_wire = true /\
@@ -121,3 +135,23 @@ Example C12_ex_unoffered_abort :
   client_run f12_view (mkFlight None (mkHello 771 772 0 [1; 2; 3] 4865 0 29 0 false None []) [] (Some 1) None true)
   = Abort a_bad_certificate.
 Proof. vm_compute. repeat split; reflexivity. Qed.
+
+Example C12_ex_resumption_unoffered_suite :
+  (* a session with suite 0xc009, which f12_view does not list, is offered (SetSessionState) and the server resumes it *)
+  client_run_sess env_fixed f12_view (Some (mkSess 771 49161 true)) true
+    (mkFlight None (mkHello 771 0 0 [1; 2; 3] 49161 0 0 0 false None []) [] None None true) = Abort a_handshake_failure /\
+  (* with a listed suite the resumption completes *)
+  client_run_sess env_fixed f12_view (Some (mkSess 771 49199 true)) true
+    (mkFlight None (mkHello 771 0 0 [1; 2; 3] 49199 0 0 0 false None []) [] None None true)
+  = Complete (mkState 771 49199 0 [] false false).
+Proof. vm_compute. split; reflexivity. Qed.
+
+Example C12_ex_after_hrr :
+  (* well-formed HRR, then a ServerHello that does not echo the session id / names another suite *)
+  client_run f12_view (mkFlight (Some (mkHello 771 772 0 [1; 2; 3] 4865 0 0 23 false None []))
+                                (mkHello 771 772 0 [1; 2; 4] 4865 0 23 0 false None []) [] None None true)
+  = Abort a_illegal_parameter /\
+  client_run f12_view (mkFlight (Some (mkHello 771 772 0 [1; 2; 3] 4865 0 0 23 false None []))
+                                (mkHello 771 772 0 [1; 2; 3] 4865 1 23 0 false None []) [] None None true)
+  = Abort a_illegal_parameter.
+Proof. vm_compute. split; reflexivity. Qed.
